@@ -1158,6 +1158,7 @@ func (ctx Ctx) indexExpr(e *ast.IndexExpr, isSpecial bool) coq.CallExpr {
 func (ctx Ctx) derefExpr(e ast.Expr) coq.Expr {
 	info, ok := ctx.getStructInfo(ctx.typeOf(e))
 	if ok && info.throughPointer {
+		ctx.dep.addDep(info.name)
 		return coq.NewCallExpr(coq.GallinaIdent("struct.load"),
 			coq.StructDesc(info.name),
 			ctx.expr(e))
@@ -1672,6 +1673,7 @@ func (ctx Ctx) assignFromTo(s ast.Node,
 	case *ast.StarExpr:
 		info, ok := ctx.getStructInfo(ctx.typeOf(lhs.X))
 		if ok && info.throughPointer {
+			ctx.dep.addDep(info.name)
 			return coq.NewAnon(coq.NewCallExpr(coq.GallinaIdent("struct.store"),
 				coq.StructDesc(info.name),
 				ctx.expr(lhs.X),
